@@ -85,6 +85,7 @@ func runNackRtx(c *c13Case, cl *caller, fails *[]cq.ImplFailure) runOut {
 		return copy(b, pending), a, nil
 	}))
 	calls := 0
+	stored := map[int]int{}
 	fire := func(e ev) {
 		if e.K >= len(c.Pkts) {
 			return
@@ -96,18 +97,20 @@ func runNackRtx(c *c13Case, cl *caller, fails *[]cq.ImplFailure) runOut {
 		pending = raw
 		before := n()
 		_, _, _ = rr.Read(make([]byte, 1500), interceptor.Attributes{})
-		if e.K < calls {
+		k, have := stored[e.K]
+		if e.K < calls && have {
 			if !waitFor(n, before+1, 2*time.Second) {
 				*fails = append(*fails, cq.ImplFailure{Kind: "no-retransmission", Detail: fmt.Sprintf("NACK for stored packet %d not answered", e.K), Case: c})
 			}
 			time.Sleep(200 * time.Microsecond)
 		} else {
+			k = len(c.Pkts) + e.K
 			time.Sleep(3 * time.Millisecond)
 		}
 		mu.Lock()
 		out.outs = append(out.outs, append([]int64{}, got[before:]...))
 		mu.Unlock()
-		out.ops = append(out.ops, cq.C("Emit", c.Comp, nat(e.K)))
+		out.ops = append(out.ops, c.emitOp(k))
 	}
 	ei := 0
 	for i := range c.Pkts {
@@ -115,7 +118,9 @@ func runNackRtx(c *c13Case, cl *caller, fails *[]cq.ImplFailure) runOut {
 			fire(c.Evs[ei])
 			ei++
 		}
-		writeCall(c, cl, w, i, false, &out)
+		if writeCall(c, cl, w, i, false, &out) {
+			stored[i] = len(stored)
+		}
 		calls++
 		out.ops = append(out.ops, cl.scribble()...)
 	}
@@ -150,12 +155,15 @@ func runPacer(c *c13Case, cl *caller, fails *[]cq.ImplFailure, leaky bool) runOu
 	}
 	fl := flushAt(c)
 	done := 0
+	accepted := 0
 	for i := range c.Pkts {
-		writeCall(c, cl, w, i, false, &out)
+		if writeCall(c, cl, w, i, false, &out) {
+			accepted++
+		}
 		out.ops = append(out.ops, cl.scribble()...)
 		if fl[i+1] {
-			if !waitFor(sk.n, i+1, 3*time.Second) {
-				*fails = append(*fails, cq.ImplFailure{Kind: "not-delivered", Detail: fmt.Sprintf("%d of %d packets delivered", sk.n(), i+1), Case: c})
+			if !waitFor(sk.n, accepted, 3*time.Second) {
+				*fails = append(*fails, cq.ImplFailure{Kind: "not-delivered", Detail: fmt.Sprintf("%d of %d accepted packets delivered", sk.n(), accepted), Case: c})
 			}
 			time.Sleep(300 * time.Microsecond)
 			sk.mu.Lock()
@@ -163,7 +171,7 @@ func runPacer(c *c13Case, cl *caller, fails *[]cq.ImplFailure, leaky bool) runOu
 			done = len(sk.pk)
 			sk.mu.Unlock()
 			out.outs = append(out.outs, flatParts(got))
-			out.ops = append(out.ops, cq.C("EmitAll", c.Comp), cq.C("Drop", c.Comp))
+			out.ops = append(out.ops, c.emitAllOp(), c.dropOp())
 		}
 	}
 	cl.final(len(c.Pkts))
@@ -428,7 +436,7 @@ func runJBPush(c *c13Case, cl *caller, fails *[]cq.ImplFailure) runOut {
 	}
 	for i := range c.Pkts {
 		h, p := cl.build(c.Pkts[i], false)
-		out.ops = append(out.ops, callOp(c.Comp, h, p))
+		out.ops = append(out.ops, callOp(c, h, p))
 		cl.before(h, p)
 		pkt := reused
 		if cl.reuse {
